@@ -683,6 +683,10 @@ def run_shard(spec_, res):
     monitors.install(snapshot_fn=_snap)
     rng = random.Random(env.shard_seed(spec_["shard"]))
     tier = spec_["tier"]
+    # a MetaModule's labelled controllers are public attributes too (`u_<label>`): an edit through the alias lands on the
+    # controller carrying the label and on no other exposed controller
+    from .. import aliasprobe
+    aliasprobe.run(res, PROPERTY, random.Random(env.shard_seed(spec_["shard"]) + 5), 25 if tier == "quick" else 250)
     for name in spec_["fixtures"]:
         with open(os.path.join(env.FIXTURE_DIR, name), "rb") as f:
             raw = f.read()
